@@ -677,7 +677,6 @@ func (e *env) runCase(files map[string][]row, order []string, reqs []delReq, tag
 			if !sameSnap(before, after) {
 				e.c.Fail("rejected-delete-mutated:handleDelete", fmt.Sprintf("request rejected with %d (%s) but the data changed", status, r.Error), replay.String())
 			}
-			lastDry = nil
 		case d.dry:
 			e.c.Tag("del:dry")
 			if !sameSnap(before, after) {
@@ -695,13 +694,11 @@ func (e *env) runCase(files map[string][]row, order []string, reqs []delReq, tag
 			}
 			if status == 200 && r.Success {
 				e.monitorReal(where, r, before, pv, after, replay.String())
-				if lastDry != nil && lastDryWhere == where && lastDry.DeletedCount != r.DeletedCount {
-					e.c.Tag("finding:dry-count-differs")
-					e.c.Fail("dry-run-count-differs:handleDelete", fmt.Sprintf("dry run reported deleted_count=%d, the confirmed delete of the same request on the same data reported %d (WHERE %s)", lastDry.DeletedCount, r.DeletedCount, where), replay.String())
-				}
 				if lastDry != nil && lastDryWhere == where {
-					if gone := int64(total(before) - total(after)); lastDry.DeletedCount != gone {
-						e.c.Fail("dry-run-count-wrong:handleDelete", fmt.Sprintf("dry run reported deleted_count=%d but the confirmed delete removed %d rows (WHERE %s)", lastDry.DeletedCount, gone, where), replay.String())
+					gone := int64(total(before) - total(after))
+					if lastDry.DeletedCount != r.DeletedCount || lastDry.DeletedCount != gone {
+						e.c.Tag("finding:dry-count-differs")
+						e.c.Fail("dry-run-count-differs:handleDelete", fmt.Sprintf("dry run reported deleted_count=%d; the confirmed delete of the same request on the same data reported %d and removed %d rows (WHERE %s)", lastDry.DeletedCount, r.DeletedCount, gone, where), replay.String())
 					}
 				}
 			} else {
@@ -757,7 +754,7 @@ func main() {
 	if n == 0 {
 		n = 250
 		if c.Thorough() {
-			n = 4000
+			n = 1500
 		}
 	}
 	I := func(v int64) cell { return cell{k: 'i', n: v} }
@@ -804,6 +801,9 @@ func main() {
 		p := &pred{op: "cmp", cmp: "gt", col: 2, lit: I(1)}
 		e.runCase(data, one, []delReq{{true, false, big, 1, p}, {true, true, big, 1, p}, {true, true, 1, big, p}, {false, true, 1, big, p}, {false, true, 2, 1, p}}, "edge:gates")
 	}
+
+	// malformed / refused requests (monitors only)
+	e.malformedStream()
 
 	// (2) random datasets × predicates; each: dry run, confirmed delete, sometimes a follow-up delete.
 	var rid int64 = 100
